@@ -124,12 +124,15 @@ def run_schedules(args):
                 for k in call_samples[ci]:
                     accepted[k] = model.written[k]
             lost = sorted(k for k, row in accepted.items() if union.get(k) != row)
-            fault_call = None
-            for c in calls:
-                if c["opno_before"] <= i < c["opno_after"]:
-                    fault_call = c["i"]
-            if fault_call is None:
-                fault_call = len(calls)  # fault index beyond the operations actually issued
+            # the call(s) during which the injected fault(s) occurred; with two faults the obligation to
+            # report counts from the later one
+            fcs = []
+            for fi in (i, i2):
+                if fi is None or fi < 0:
+                    continue
+                hit = [c["i"] for c in calls if c["opno_before"] <= fi < c["opno_after"]]
+                fcs.append(hit[0] if hit else len(calls))  # beyond the operations actually issued
+            first_fault_call, fault_call = min(fcs), max(fcs)
             later = [c for c in calls if c["i"] > fault_call]
             later_writes = [c for c in later if ops[c["i"]][0] in ("w", "wb", "wn")]
             phase = phase_of(res["ops"], i)
@@ -141,7 +144,7 @@ def run_schedules(args):
             outcome = "%s:%s:%s" % (phase, "lost" if lost else "nolost", fcall_status)
             part["outcomes"][outcome] += 1
             if lost:
-                reported_in_fault_call = fault_call < len(calls) and calls[fault_call]["status"] == "exc"
+                reported_in_fault_call = any(c["status"] == "exc" for c in calls if first_fault_call <= c["i"] <= fault_call)
                 if later:
                     first_later = later[0]
                     if not reported_in_fault_call and first_later["status"] != "exc":
